@@ -482,8 +482,14 @@ class RVData:
         return ax
 
     def __copy__(self):
+        # a copy holds the same observations and the same reference epoch:
+        # don't re-filter, and pass on t_ref (False = no reference epoch)
         return self.__class__(
-            t=self.t.copy(), rv=self.rv.copy(), rv_err=self.rv_err.copy()
+            t=self.t.copy(),
+            rv=self.rv.copy(),
+            rv_err=self.rv_err.copy(),
+            t_ref=False if self.t_ref is None else self.t_ref,
+            clean=False,
         )
 
     def copy(self):
@@ -495,12 +501,14 @@ class RVData:
                 t=self.t.copy()[slc],
                 rv=self.rv.copy()[slc],
                 rv_err=self.rv_err.copy()[slc][:, slc],
+                clean=False,
             )
         else:
             return self.__class__(
                 t=self.t.copy()[slc],
                 rv=self.rv.copy()[slc],
                 rv_err=self.rv_err.copy()[slc],
+                clean=False,
             )
 
     def __len__(self):
